@@ -259,15 +259,28 @@ func c08Base(r *core.Run, tr *trio, rng *rand.Rand, base string, nSpell int) {
 					r.Case(ep+"|"+sp, true)
 					r.Count("encoded_slash", 1)
 					r.Count("encoded_slash_"+hex[1:], 1)
-					c08JudgeSlash(r, tr, ep, base, sp, hex, obs, canon)
+					c08JudgeSlash(r, tr, ep, base, sp, hex, 1, obs, canon)
 				}
+			}
+			// several encoded slashes in one segment (mixed hex case)
+			other := map[string]string{"%2F": "%2f", "%2f": "%2F"}[hex]
+			for _, multi := range []string{hex + seg + hex, hex + seg[:len(seg)/2] + other + seg[len(seg)/2:] + hex} {
+				if strings.Contains(seg, "%") {
+					continue // do not split an existing escape
+				}
+				sp := base[:last+1] + multi
+				obs := tr.c08Send(ep, sp)
+				r.Case(ep+"|"+sp, true)
+				r.Count("encoded_slash", 1)
+				r.Count("several_encoded_slashes_in_one_segment", 1)
+				c08JudgeSlash(r, tr, ep, base, sp, hex, strings.Count(strings.ToUpper(multi), "%2F"), obs, canon)
 			}
 		}
 	}
 }
 
 // which rule would the path with the encoded slash (one segment) match, and under which setting?
-func c08JudgeSlash(r *core.Run, tr *trio, ep, base, sp, hex string, obs, canon c08Obs) {
+func c08JudgeSlash(r *core.Run, tr *trio, ep, base, sp, hex string, nEnc int, obs, canon c08Obs) {
 	cs := c08Case{EP: ep, Base: base, Spelling: sp, Observed: obs, Canonical: canon}
 	// The effective setting is the one of the rule that matches. Which rule matches is itself observable
 	// only for accepted requests; the statement fixes what must never happen:
@@ -320,11 +333,11 @@ func c08JudgeSlash(r *core.Run, tr *trio, ep, base, sp, hex string, obs, canon c
 	hasEnc := strings.Contains(strings.ToUpper(capsJoined), "%2F")
 	switch ruleSetting {
 	case "no_decode":
-		if !hasEnc {
+		if strings.Count(strings.ToUpper(capsJoined), "%2F") < nEnc {
 			cs.Expected = "captured value keeps the encoded slash"
 			r.Violation("no-decode-capture-decoded:"+hex[1:]+":"+ep, fmt.Sprintf("%s: %q captured %v: the encoded slash did not stay encoded", ep, sp, obs.Caps), cs)
 		}
-		if ep == "proxy" && !strings.Contains(strings.ToUpper(obs.UpPath), "%2F") {
+		if ep == "proxy" && strings.Count(strings.ToUpper(obs.UpPath), "%2F") < nEnc {
 			cs.Expected = "upstream path keeps the encoded slash"
 			r.Violation("no-decode-upstream-path-decoded:"+hex[1:]+":"+ep, fmt.Sprintf("%s: %q was forwarded as %q", ep, sp, obs.UpPath), cs)
 		}
